@@ -270,13 +270,15 @@ Classify(r) ==
                      /\ TraceLog[run].histMaxSeg < P.c.maxSeg /\ r.outMaxSeg = TraceLog[run].histMaxSeg /\ r.outMinSeg = -r.outMaxSeg
                      /\ r.segIM = EffInMem(P.segIM, 2 * r.outMaxSeg + 1) /\ r.tofIM = TofIM(P) THEN "C14-reuse-maxseg"
              ELSE "new")
+       \* C14-reuse-lmframe: re-used list-mode objective function whose time frame was changed: the computation is refused
+       ELSE IF r.e = "End" /\ r.err /\ m.pc = "g-grad" /\ ~XRefused /\ Has(XCfg, "reuse") /\ XCfg.reuse /\ XCfg.changed = "frame" THEN "C14-reuse-lmframe"
        ELSE IF r.e = "Grad" /\ m.pc = "g-grad" /\ r.plusSens /\ Len(r.lm) = Len(r.pd) /\ r.subset \in 0..(XCfg.numSubsets - 1)
                  /\ (XCfg.xm => SeqIs(r.pd, XExpected(r), XCfg.nvox)) /\ AllZero(r.lm) /\ ~AllZero(r.pd)
             THEN "C14-lmgrad-serial"
             ELSE "new"
 
 Idle == [pc |-> "idle"]
-Cov0 == [subsets3 |-> 0, segZero |-> 0, segRefused |-> 0, reuse |-> 0, emptyFrameRewind |-> 0, boundaryMark |-> 0, emptyOut |-> 0, multiBatchMem |-> 0, multiBatchDisk |-> 0, ecatTofWords |-> 0, ecatWords |-> 0]
+Cov0 == [reuseObj |-> 0, subsets3 |-> 0, segZero |-> 0, segRefused |-> 0, reuse |-> 0, emptyFrameRewind |-> 0, boundaryMark |-> 0, emptyOut |-> 0, multiBatchMem |-> 0, multiBatchDisk |-> 0, ecatTofWords |-> 0, ecatWords |-> 0]
 Init == l = 1 /\ run = 0 /\ P = << >> /\ T = << >> /\ m = Idle /\ I = {} /\ bad = << >> /\ cov = Cov0
 Note(b, ln, cls) == IF Len(SelectSeq(b, LAMBDA x : x[2] = cls)) < (IF cls = "new" THEN 200 ELSE 20) THEN Append(b, << ln, cls >>) ELSE b
 \* coverage facts of an ACCEPTED line r (machine state m before the line)
@@ -299,7 +301,9 @@ CovOf(r, nm) ==
           !.subsets3 = @ + (IF r.e = "Grad" /\ r.plusSens /\ ~XCfg.xm /\ XCfg.numSubsets >= 3 /\ ~AllZero(r.pd) THEN 1 ELSE 0),
           \* direct planes only although the data have oblique segments
           !.segZero = @ + (IF r.e = "Grad" /\ ~r.plusSens /\ XCfg.maxSegProc = 0 /\ XCfg.maxSeg > 0 THEN 1 ELSE 0),
-          !.segRefused = @ + (IF r.e = "End" /\ r.err THEN 1 ELSE 0)]
+          !.segRefused = @ + (IF r.e = "End" /\ r.err THEN 1 ELSE 0),
+          \* a completed execution of a re-used list-mode objective function object
+          !.reuseObj = @ + (IF r.e = "End" /\ ~r.err /\ Has(XCfg, "reuse") /\ XCfg.reuse THEN 1 ELSE 0)]
   ELSE [cov EXCEPT
           !.ecatWords = @ + (IF r.e = "W" THEN 1 ELSE 0),
           \* event words of a TOF scanner that point beyond the first TOF block
